@@ -51,6 +51,15 @@ class _Runner(_Processor):
         )
 
     @property
+    def max_tasks_exceeded(self) -> bool:
+        return (
+            self.max_tasks
+            - self._tasks_processed
+            - (self._tasks_concurrency_limit - self._limiter._value)
+            < 0
+        )
+
+    @property
     def cancel_event_task(self) -> asyncio.Task:
         if not hasattr(self, "_cancel_event_task"):
             self._cancel_event_task = asyncio.create_task(self.cancel_event.wait())
@@ -100,6 +109,11 @@ class _Runner(_Processor):
                 await consumer.unpause()
             else:
                 await self._limiter.acquire()
+            if self.max_tasks_exceeded:
+                # the whole budget is committed to executions which have already started
+                self._limiter.release()
+                await self._conn.message_broker.reject(key)
+                return
             t = asyncio.create_task(self._process_with_event(actor, key, payload, params))
             self._tasks.add(t)
             t.add_done_callback(self._task_callback)
